@@ -241,3 +241,67 @@ func verifHarness_C14_upgrade_open_before_message() {
 	verifJoin()
 	verifAssert(false, "witness")
 }
+
+// verifHookedConn is a fake net.Conn whose Close does what the engine does
+// when the underlying connection goes away: it queues the WebSocket close
+// handling behind the connection's pending callbacks.
+type verifHookedConn struct {
+	verifFake
+	onClose func()
+	hooked  bool
+}
+
+func (c *verifHookedConn) Close() error {
+	already := c.closed
+	_ = c.verifFake.Close()
+	if !already && c.onClose != nil {
+		c.onClose()
+	}
+	return nil
+}
+
+// a write that fails in the send-queue drainer while a message callback is
+// still running: the close callback still runs exactly once and only after
+// that callback has returned.
+func verifHarness_C14_send_queue_write_failure_during_callback() {
+	verifBound("preemptions", 2)
+	nbc := nbio.VerifNewConn(func(f func()) { go f() })
+	ep := verifNewEndpoint(false, false, 0, nil)
+	hc := &verifHookedConn{}
+	hc.failAt = 0 // the first write on the wire fails
+	ep.u.BlockingModSendQueueInitSize = 2
+	ep.u.BlockingModSendQueueMaxSize = 0
+	ep.c = newConn(ep.u, hc, "", false, true, false)
+	ep.c.Execute = nbc.Execute
+	hc.onClose = func() { nbc.MustExecute(func() { ep.c.CloseAndClean(net.ErrClosed) }) }
+	running, closes := 0, 0
+	msgs := 0
+	ep.u.OnMessage(func(c *Conn, mt MessageType, data []byte) {
+		running++
+		msgs++
+		// the callback answers; the answer goes through the send queue
+		_ = c.WriteMessage(BinaryMessage, []byte{'r'})
+		verifYield()
+		running--
+	})
+	ep.c.OnClose(func(c *Conn, err error) {
+		closes++
+		verifAssertD(running == 0, "close-callback-does-not-overlap-message-callback", "write-failure")
+	})
+	verifSched(true, 2)
+	verifGo(func() {
+		_ = ep.c.Parse([]byte{0x80 | byte(BinaryMessage), 1, '1'})
+	})
+	verifJoin()
+	// in queued-write mode the close is delayed by a timer (BlockingModAsyncCloseDelay)
+	for i := 0; i < verifTimerCount(); i++ {
+		if verifTimerArmed(i) {
+			verifFireTimer(i)
+			verifJoin()
+		}
+	}
+	verifAssertD(msgs == 1, "message-callback-ran", "")
+	verifAssertD(hc.closed, "failed-write-closes-connection", "")
+	verifAssertD(closes == 1, "close-callback-exactly-once", "write-failure")
+	verifAssert(false, "witness")
+}
